@@ -11,6 +11,15 @@ import (
 
 func c05Prog(r *Rng, mode int) *Prog {
 	taken := map[string]bool{"w": true}
+	helpName, helpAliases := "", []string(nil)
+	if r.Chance(1, 3) {
+		// a help command whose flag has aliases: they are keys of every level like any other
+		helpName, helpAliases = "help", [][]string{{"h"}, {"?", "h"}, {"he", "?"}}[r.Intn(3)]
+		taken["help"] = true
+		for _, a := range helpAliases {
+			taken[a] = true
+		}
+	}
 	al := []string{"a", "b", "a", "b", "é"}
 	name := func() string {
 		for {
@@ -55,7 +64,7 @@ func c05Prog(r *Rng, mode int) *Prog {
 	w := &Opt{ID: 0, Kind: KBool, Name: "w"}
 	root := &Cmd{Unknown: -1, HasFn: true, Opts: append(append([]*Opt{w}, mk(r.Range(2, 5))...), family...)}
 	root.Cmds = []*Cmd{{Name: "cmd", Unknown: -1, HasFn: true, Opts: mk(r.Range(1, 4))}}
-	return &Prog{Mode: mode, Unknown: 0, Root: root}
+	return &Prog{Mode: mode, Unknown: 0, Root: root, Help: helpName, HelpAliases: helpAliases}
 }
 
 func init() {
@@ -257,6 +266,15 @@ func init() {
 								}
 							}
 							res.Counters = addCounter(res.Counters, "two_level_ambiguous", 1)
+							if mode == 1 && n == 1 && it1.K == IFlag {
+								argvb := []string{"-w" + pfx, "cmd", "-w" + pfx}
+								ocb := Run(p, argvb, false)
+								res.Execs++
+								if !ocb.HasErr {
+									docb := &CaseDoc{Prog: p, Argv: argvb, Got: ocb}
+									return viol("same letter in bundles at two levels", []string{fmt.Sprintf("letter %q is ambiguous inside the command (%v) but the bundle was accepted", pfx, amb)}, docb)
+								}
+							}
 							continue
 						}
 						exp := Fold(t, sc)
@@ -266,6 +284,20 @@ func init() {
 						}
 						if it1.Opt != it2.Opt || it1.Key != it2.Key {
 							res.Counters = addCounter(res.Counters, "two_level_resolves_differently", 1)
+						}
+						// Bundling: the same letter inside a bundle in front of and behind the command token
+						if mode == 1 && n == 1 && it1.K == IFlag && it2.K == IFlag {
+							wItem := func(level string) *Item {
+								return &Item{K: IFlag, Opt: p.Root.Opts[0], OptID: 0, Key: "w", Typed: "w", Short: true, Level: level}
+							}
+							scb := &Scenario{Prog: p, Items: []*Item{wItem(""), it1, {K: ICmd, Tok: "cmd", Tokens: []string{"cmd"}, Level: ""}, wItem("cmd"), it2}}
+							scb.Argv = []string{"-w" + pfx, "cmd", "-w" + pfx}
+							ocb := Run(p, scb.Argv, false)
+							res.Execs++
+							if d := Diff(t, ocb, Fold(t, scb)); len(d) > 0 {
+								docb := &CaseDoc{Prog: p, Argv: scb.Argv, Got: ocb, Note: fmt.Sprintf("letter %q bundled in front of and behind the command token", pfx)}
+								return viol("same letter in bundles at two levels", d, docb)
+							}
 						}
 					}
 				}
